@@ -4,6 +4,7 @@ import (
 	"encoding/json"
 	"fmt"
 	"os"
+	"path"
 	"regexp"
 	"sort"
 	"strings"
@@ -51,14 +52,21 @@ func human(c lexh.Case) string {
 }
 
 func humanBuild(b lexh.BuildCase) string {
-	if b.Kind == 'p' {
-		return fmt.Sprintf("Build(main.go=%q)", b.Files["main.go"])
+	goStmt := ""
+	if b.Kind == 'P' || b.Kind == 'T' {
+		goStmt = "AllowGoStmt; "
+	}
+	if b.Program() && len(b.Files) == 1 {
+		return fmt.Sprintf("Build(%smain.go=%q)", goStmt, b.Files["main.go"])
 	}
 	var parts []string
-	for n, d := range b.Files {
-		parts = append(parts, fmt.Sprintf("%s=%q", n, d))
+	for _, n := range sortedNames(b.Files) {
+		parts = append(parts, fmt.Sprintf("%s=%q", n, b.Files[n]))
 	}
-	return fmt.Sprintf("BuildTemplate(%q; %s)", b.Entry, strings.Join(parts, "; "))
+	if b.Program() {
+		return fmt.Sprintf("Build(%s%s)", goStmt, strings.Join(parts, "; "))
+	}
+	return fmt.Sprintf("BuildTemplate(%s%q; %s)", goStmt, b.Entry, strings.Join(parts, "; "))
 }
 
 // genLex produces the lexer inputs of this run.
@@ -248,6 +256,7 @@ func run(c *hx.Ctx) error {
 		}
 		return ""
 	}
+	knownSig := map[string]string{} // signature with which a recorded build finding fails on this tree
 	for _, f := range c.Findings {
 		switch {
 		case strings.HasPrefix(f.Minimal, "lex "):
@@ -265,6 +274,7 @@ func run(c *hx.Ctx) error {
 				return fmt.Errorf("known finding %s: %v", f.ID, err)
 			}
 			if br := buildOne(b); buildClause(br) != "" {
+				knownSig[f.ID] = buildClause(br) + "|" + digitsRe.ReplaceAllString(br.Msg, "#") + "|" + br.Site
 				res.AddBreak(proto.Break{Kind: "property", Name: buildClause(br), Case: "C04 " + f.Minimal, Human: humanBuild(b),
 					Impl: br.Status + " " + br.Msg + " @" + br.Site, Model: "no panic, no crash, no hang, no leak", Finding: f.ID})
 			}
@@ -323,6 +333,9 @@ func run(c *hx.Ctx) error {
 
 	r := proto.NewRand(c.R.U64()) // seeds of the shared PRNG are shifts of one sequence: re-key
 	cases := genLex(c, r, corpus)
+	if os.Getenv("VERIF_C04_ONLY") == "forms" {
+		cases = nil
+	}
 	lexLines := make([]string, len(cases))
 	modelLines := make([]string, len(cases))
 	for i, cs := range cases {
@@ -451,6 +464,21 @@ func run(c *hx.Ctx) error {
 		builds = append(builds, b)
 		origins = append(origins, "tree")
 	}
+	// forms × modifiers × roles: every declaration/statement form with every modifier in every file role
+	// (lexh/forms.go), then a seeded-random part; VERIF_C04_ONLY=forms runs this stream alone (development aid)
+	if os.Getenv("VERIF_C04_ONLY") == "forms" {
+		builds, origins = nil, nil
+	}
+	formCases := lexh.Forms(r, c.Quick(), c.N(8000, 150000))
+	formsAt := len(builds)
+	for _, fc := range formCases {
+		builds = append(builds, fc.BuildCase)
+		origins = append(origins, "forms")
+	}
+	for k, v := range lexh.FormsCoverage(formCases) {
+		res.Histogram[k] = v
+	}
+	res.Notes = append(res.Notes, lexh.FormsSummary())
 	blines := make([]string, len(builds))
 	for i, b := range builds {
 		blines[i] = b.Line()
@@ -489,12 +517,41 @@ func run(c *hx.Ctx) error {
 	res.Histogram["build-sources-with-huge-array-types"] = len(hugeIdx)
 	res.Notes = append(res.Notes, fmt.Sprintf("build child: %d inputs in %v", len(blines), time.Since(t0).Round(time.Millisecond)))
 	t0 = time.Now()
-	bshrunk := map[string]bool{}
+	// one signature = (clause, message without numbers, innermost scriggo function). Per signature two cases are shrunk:
+	// the first one of the older streams (arbitrary bytes, corpus, truncations, mutants, structural, trees) and the
+	// shortest one of the forms stream — the shortest, so that the outcome does not depend on the order of enumeration.
+	type failing struct {
+		clause, sig string
+		br          lexh.BuildResult
+	}
+	fails := map[int]failing{}
+	var sigOrder []string
+	firstLegacy := map[string]int{}
+	shortestForms := map[string]int{}
+	size := func(b lexh.BuildCase) int {
+		n := 0
+		for _, d := range b.Files {
+			n += len(d) + 16
+		}
+		return n
+	}
+	sigOf := func(clause string, br lexh.BuildResult) string {
+		if strings.HasPrefix(br.Status, "CRASH") || br.Status == "OOM" {
+			if strings.Contains(br.Detail, "OOM") {
+				return clause + "|OOM"
+			}
+			return clause + "|" + br.Detail
+		}
+		return clause + "|" + digitsRe.ReplaceAllString(br.Msg, "#") + "|" + br.Site
+	}
 	for i, b := range builds {
 		br := lexh.ParseBuildResult(bans[i])
 		res.Count("build:"+b.Key(), br.Status == "ok" || br.Status == "builderror")
 		res.Hist("build-" + origins[i])
 		res.Hist("build-status-" + strings.Fields(br.Status + " x")[0])
+		if i >= formsAt {
+			res.Hist("forms-status-" + strings.Fields(br.Status + " x")[0])
+		}
 		if br.Status == "SKIPPED" {
 			res.Hist("build-skipped-after-repeated-crashes")
 			continue
@@ -503,7 +560,6 @@ func run(c *hx.Ctx) error {
 		if clause == "" {
 			continue
 		}
-		sig := clause + "|" + digitsRe.ReplaceAllString(br.Msg, "#") + "|" + br.Site
 		if hugeArrayClass(c, b, br, buildOne) {
 			res.Hist("build-huge-array-confirmed-by-counterfactual")
 			continue
@@ -512,14 +568,37 @@ func run(c *hx.Ctx) error {
 			res.Hist("build-disassemble-multibyte-confirmed-by-counterfactual")
 			continue
 		}
-		if strings.HasPrefix(br.Status, "CRASH") || br.Status == "OOM" {
-			sig = clause + "|"
-			if strings.Contains(br.Detail, "OOM") {
-				sig += "OOM"
-			} else {
-				sig += br.Detail
+		sig := sigOf(clause, br)
+		fails[i] = failing{clause, sig, br}
+		_, l := firstLegacy[sig]
+		_, f := shortestForms[sig]
+		if !l && !f {
+			sigOrder = append(sigOrder, sig)
+		}
+		if i < formsAt {
+			if !l {
+				firstLegacy[sig] = i
+			}
+		} else {
+			res.Hist("forms-failing-" + formCases[i-formsAt].Role)
+			if j, ok := shortestForms[sig]; !ok || size(b) < size(builds[j]) {
+				shortestForms[sig] = i
 			}
 		}
+	}
+	if p := os.Getenv("VERIF_C04_DUMP"); p != "" { // development aid: the outcome of every case of the forms stream
+		var sb strings.Builder
+		for k, fc := range formCases {
+			br := lexh.ParseBuildResult(bans[formsAt+k])
+			fmt.Fprintf(&sb, "%s\t%s\t%s\t%s\t%s\t%s\n", fc.Role, fc.Form, fc.Mod, br.Status, br.Msg, humanBuild(fc.BuildCase))
+		}
+		os.WriteFile(p, []byte(sb.String()), 0o644)
+	}
+	nShrunk := 0
+	reported := map[string]bool{}
+	shrinkAndReport := func(i int) {
+		b, fl := builds[i], fails[i]
+		br, clause := fl.br, fl.clause
 		budget := 20000
 		if strings.HasPrefix(br.Status, "CRASH") || br.Status == "OOM" {
 			budget = 6000 // a failing probe costs a child process, the others are cheap
@@ -527,16 +606,13 @@ func run(c *hx.Ctx) error {
 		if br.Status == "HANG" {
 			budget = 10 // every failing probe costs the timeout
 		}
-		if bshrunk[sig] {
-			continue
-		}
-		bshrunk[sig] = true
+		nShrunk++
 		min := b
 		same := func(bb lexh.BuildCase) bool {
 			r2 := buildOne(bb)
 			return buildClause(r2) == clause && digitsRe.ReplaceAllString(r2.Msg, "#") == digitsRe.ReplaceAllString(br.Msg, "#") && r2.Site == br.Site
 		}
-		if len(bshrunk) <= 40 {
+		if nShrunk <= 60 {
 			// first drop the files that are not needed
 			for _, n := range sortedNames(b.Files) {
 				if n == b.Entry || len(min.Files) == 1 {
@@ -552,10 +628,27 @@ func run(c *hx.Ctx) error {
 					min = cand
 				}
 			}
+			// a file other than the entry that fails the same way when built alone (a layout, a partial, an imported file
+			// or package) stands for the whole tree
+			if len(min.Files) > 1 {
+				for _, n := range sortedNames(min.Files) {
+					if n == min.Entry {
+						continue
+					}
+					entry := "main.go"
+					if !min.Program() {
+						entry = "index" + path.Ext(n)
+					}
+					if cand := (lexh.BuildCase{Kind: min.Kind, Entry: entry, Files: map[string][]byte{entry: min.Files[n]}}); same(cand) {
+						min = cand
+						break
+					}
+				}
+			}
 			// shrink the file whose removal of bytes keeps the same failure; other files stay
 			// the format that matters least: HTML
-			if min.Kind == 't' && len(min.Files) == 1 && min.Entry != "index.html" {
-				if cand := (lexh.BuildCase{Kind: 't', Entry: "index.html", Files: map[string][]byte{"index.html": min.Files[min.Entry]}}); same(cand) {
+			if !min.Program() && len(min.Files) == 1 && min.Entry != "index.html" {
+				if cand := (lexh.BuildCase{Kind: min.Kind, Entry: "index.html", Files: map[string][]byte{"index.html": min.Files[min.Entry]}}); same(cand) {
 					min = cand
 				}
 			}
@@ -576,17 +669,49 @@ func run(c *hx.Ctx) error {
 				nf[n] = md
 				min = lexh.BuildCase{Kind: min.Kind, Entry: min.Entry, Files: nf}
 			}
+			// without AllowGoStmt, if it does not matter
+			if min.Kind == 'T' || min.Kind == 'P' {
+				if cand := (lexh.BuildCase{Kind: min.Kind - 'A' + 'a', Entry: min.Entry, Files: min.Files}); same(cand) {
+					min = cand
+				}
+			}
 			br = buildOne(min)
 		}
+		if reported[min.Line()] {
+			return
+		}
+		reported[min.Line()] = true
 		name := clause
 		if br.Site != "" {
 			name += " @" + br.Site + " (" + digitsRe.ReplaceAllString(firstWords(br.Msg, 5), "#") + ")"
 		}
-		res.AddBreak(proto.Break{Kind: "property", Name: name, Case: "C04 build " + min.Line(), Human: humanBuild(min),
+		finding := knownFor("build " + min.Line())
+		if finding == "" {
+			// a narrow match: a recorded finding that fails on this tree with the same signature and whose minimal
+			// input differs from the shrunk case in one file by at most two tokens
+			if finding = narrowKnown(c, min, fl.sig, knownSig); finding != "" {
+				res.Hist("build-narrow-match-" + finding)
+			}
+		}
+		h := humanBuild(min)
+		if i >= formsAt {
+			fc := formCases[i-formsAt]
+			h += fmt.Sprintf(" [forms stream: role=%s form=%s modifier=%s; as generated: %s]", fc.Role, fc.Form, fc.Mod, humanBuild(b))
+		}
+		res.AddBreak(proto.Break{Kind: "property", Name: name, Case: "C04 build " + min.Line(), Human: h,
 			Impl:    br.Status + " " + br.Msg + " @" + br.Site + " " + br.Detail + fmt.Sprintf(" leak=%d", br.Leak),
 			Model:   "result or *BuildError (or fs.ErrNotExist for the named file) within the timeout, no goroutine left",
-			Finding: knownFor("build " + min.Line())})
+			Finding: finding})
 	}
+	for _, sig := range sigOrder {
+		if i, ok := firstLegacy[sig]; ok {
+			shrinkAndReport(i)
+		}
+		if i, ok := shortestForms[sig]; ok {
+			shrinkAndReport(i)
+		}
+	}
+	res.Histogram["build-failing-signatures"] = len(sigOrder)
 	res.Notes = append(res.Notes, fmt.Sprintf("build shrink: %v", time.Since(t0).Round(time.Millisecond)))
 	res.Histogram["build-child-crashes"] = buildRunner.Crashes
 	res.Histogram["build-child-hangs"] = buildRunner.Hangs
@@ -716,4 +841,68 @@ func smallArrays(b lexh.BuildCase) (lexh.BuildCase, bool) {
 		out.Files[n] = nd
 	}
 	return out, changed
+}
+
+// narrowKnown is the recorded finding that the shrunk case min narrowly matches: the finding's exact minimal input
+// fails on this tree with the same signature (clause, message, innermost function), has the same kind, entry and file
+// names, and differs from min in one file only, by at most two tokens (substituted, inserted or deleted; blanks
+// ignored). "" if there is none. (Shrinking is greedy: from another starting point it can end one or two tokens away
+// from the recorded minimum — `const b,` for `var b,`.)
+func narrowKnown(c *hx.Ctx, min lexh.BuildCase, sig string, knownSig map[string]string) string {
+	for _, f := range c.Findings {
+		if knownSig[f.ID] != sig || !strings.HasPrefix(f.Minimal, "build ") {
+			continue
+		}
+		fb, err := lexh.ParseBuildLine(strings.TrimPrefix(f.Minimal, "build "))
+		if err != nil || fb.Kind != min.Kind || fb.Entry != min.Entry || len(fb.Files) != len(min.Files) {
+			continue
+		}
+		differ, dist, ok := 0, 0, true
+		for n, d := range fb.Files {
+			md, has := min.Files[n]
+			if !has {
+				ok = false
+				break
+			}
+			if string(md) != string(d) {
+				differ++
+				dist = tokenDistance(lexh.Tokens(d), lexh.Tokens(md))
+			}
+		}
+		if ok && differ == 1 && dist <= 2 {
+			return f.ID
+		}
+	}
+	return ""
+}
+
+// tokenDistance is the edit distance of two token sequences, blanks left out.
+func tokenDistance(a, b [][]byte) int {
+	strip := func(t [][]byte) []string {
+		var o []string
+		for _, x := range t {
+			if s := strings.TrimSpace(string(x)); s != "" {
+				o = append(o, s)
+			}
+		}
+		return o
+	}
+	x, y := strip(a), strip(b)
+	prev := make([]int, len(y)+1)
+	for j := range prev {
+		prev[j] = j
+	}
+	for i := 1; i <= len(x); i++ {
+		cur := make([]int, len(y)+1)
+		cur[0] = i
+		for j := 1; j <= len(y); j++ {
+			cost := 1
+			if x[i-1] == y[j-1] {
+				cost = 0
+			}
+			cur[j] = min(prev[j]+1, cur[j-1]+1, prev[j-1]+cost)
+		}
+		prev = cur
+	}
+	return prev[len(y)]
 }
